@@ -129,14 +129,21 @@ func c12Run(threads, perThread, kinds int) {
 	}
 }
 
-// C12_cold: two goroutines with one request each on a cold root (quick: 4
-// request kinds - struct fields, both method fields, union list -
-// and at most 2 preemptions per schedule; thorough: all 8
-// kinds with at most 3).
+// C12_cold: two goroutines with one request each on a cold root.  quick: 4
+// request kinds (struct fields, both method fields, union list), at most 2
+// preemptions per schedule.  thorough: all 8 kinds with at most 2
+// preemptions, and the 3 kinds that share the first-use windows of one type
+// with at most 4 (8 kinds with 3 did not finish in 40 minutes, unbounded not
+// in two hours).
 func C12_cold() {
 	if sym.Thorough() {
-		sym.Preemptions(3) // (unbounded, and 4, did not finish in two hours)
-		c12Run(2, 1, len(c12Requests))
+		if sym.Choice("depth or breadth", 2) == 0 {
+			sym.Preemptions(2)
+			c12Run(2, 1, len(c12Requests))
+		} else {
+			sym.Preemptions(4)
+			c12Run(2, 1, 3)
+		}
 		return
 	}
 	c12Run(2, 1, 4)
